@@ -23,8 +23,17 @@
 // Scenarios with a rest take seconds by design: their children are started at once and waited for in order when the next
 // scenario without a rest (or the end of input) arrives, so a batch of them costs the longest, not the sum.
 //
+// Round 4: the history of the overload switches.  ":e <n> sw*n" cuts every script into EPOCHS (every thread has the same number of
+// them; only thread 0 may name switches: 0 turnOff, 1 turnOnDefaultNotThreadSafe, 2 turnOnThreadSafe, 3 saveAndDisable,
+// 4 restore).  All threads finish epoch i; then the test thread, alone, performs the switches in front of epoch i+1 and a fixed
+// PROBE (every entry point once or twice: 15 calls, nothing left outstanding); then all threads run their part of epoch i+1
+// (thread 0 as consecutive tests again).  Every call of an entry point -- script operation, probe, the output's new[]/delete[]
+// -- is bracketed by a per-thread counter of the acquisitions seen at the PlatformSpecificMutexLock seam: per epoch the harness
+// reports how many calls it made and how many of them took the lock exactly once.
+//
 // scenario:  <seed> <outalloc 0|1> <nthreads> { <nitems> item*nitems }*nthreads           (see ocaml/c10_driver.ml)
-// observation:  :ok <ntests> verdict* <wfail> <adv> <distinct> <foreign> <rest> <overlap> <n> (<thread> <slot> <size>)*n  |  :hang
+// observation:  :ok <ntests> verdict* <wfail> <adv> <distinct> <foreign> <rest> <overlap> <n> (<thread> <slot> <size>)*n
+//                   <nepochs> (<calls> <locked>)*nepochs                                                              |  :hang
 #include "hlib.h"
 #include <new>
 #include <pthread.h>
@@ -96,9 +105,25 @@ static inline void restIfAsked()
     __atomic_add_fetch(&restsBegun, 1, __ATOMIC_RELAXED);
     sleepMs(ms);
 }
+// ---------------------------------------------------------------- did this call of an entry point take the lock?
+static __thread unsigned long tlsLocks;           // acquisitions by this thread, counted where Lock() returns
+static __thread unsigned long tlsCalls, tlsLockedOnce;
+static __thread int tlsOpen;
+static __thread unsigned long tlsOpenAt;
+// a call that leaves by longjmp / exception (a misuse report on the test thread) is closed by whoever comes next: the output
+// that prints the failure, the test's teardown, the next call
+static inline void callEnd()
+{
+    if (!tlsOpen) return;
+    tlsOpen = 0; tlsCalls++;
+    if (tlsLocks - tlsOpenAt == 1) tlsLockedOnce++;
+}
+static inline void callBegin() { callEnd(); tlsOpen = 1; tlsOpenAt = tlsLocks; }
+
 static void injLock(PlatformSpecificMutex m)
 {
     perturb(); origLock(m);
+    tlsLocks++;
     // relaxed: the counters must not order the threads' accesses for ThreadSanitizer
     int v = __atomic_add_fetch(&insideNow, 1, __ATOMIC_RELAXED);
     int pk = __atomic_load_n(&insidePeak, __ATOMIC_RELAXED);
@@ -130,10 +155,14 @@ static void* seamRealloc(void* p, size_t n)
 }
 
 // ---------------------------------------------------------------- scripts
-struct Op { char kind; unsigned k; size_t sz; int e; };
+struct Op { char kind; unsigned k; size_t sz; int e; unsigned nsw; unsigned char* sw; };
 struct Blk { void* p; size_t sz; int fam; int bad; char saved; };       // fam: 0 new, 1 new[], 2 malloc; bad: overrun by the script
 struct Thr { unsigned tid; Op* ops; size_t nops; Blk* tbl; size_t ntbl; unsigned long long seed; pthread_t th; size_t pc;
-             size_t lastOp; int hasRest; };    // lastOp: index of the last operation that enters the detector (nops if none)
+             size_t lastOp; int hasRest;       // lastOp: index of the last operation that enters the detector (nops if none)
+             unsigned long* calls; unsigned long* locked; };     // per epoch: calls of entry points made, calls that took the lock once
+static unsigned nEpochs = 1;
+static unsigned epochGo;                      // epochs the test thread has opened (switches and probe done)
+static unsigned epochDone;                    // worker-epochs finished
 static const char* FILE_ = "c10_script.cpp";
 static char neverAllocated[64];
 static volatile int startFlag;
@@ -176,32 +205,70 @@ static void runOps(Thr* t)
 {
     while (t->pc < t->nops) {
         Op& o = t->ops[t->pc];
-        if (o.kind == 't') return;
+        if (o.kind == 't' || o.kind == 'e') return;
         if (o.kind == 's') { t->pc++; tlsRestMs = (unsigned) o.sz; continue; }
         if (scenarioHasRest && !t->hasRest && t->pc == t->lastOp)       // be there to ask for the lock while its holder rests
             for (int w = 0; w < 2500 && !__atomic_load_n(&restsBegun, __ATOMIC_RELAXED); w++) usleep(200);
         t->pc++;
         Blk& b = t->tbl[o.k];
-        if (o.kind == 'a') { b.p = allocEntry(o.e, o.sz); b.sz = o.sz; b.fam = famOfAllocEntry(o.e); b.bad = 0; if (b.p) memset(b.p, 0x5a, o.sz); }
-        else if (o.kind == 'f') { void* p = b.p; b.p = nullptr; releaseEntry(o.e, p); }
-        else if (o.kind == 'r') { void* p = b.p; b.p = nullptr; void* q = cpputest_realloc_location(p, o.sz, FILE_, 11); b.p = q; b.sz = o.sz; b.fam = 2; b.bad = 0; }
+        if (o.kind == 'a') { callBegin(); b.p = allocEntry(o.e, o.sz); callEnd(); b.sz = o.sz; b.fam = famOfAllocEntry(o.e); b.bad = 0; if (b.p) memset(b.p, 0x5a, o.sz); }
+        else if (o.kind == 'f') { void* p = b.p; b.p = nullptr; callBegin(); releaseEntry(o.e, p); callEnd(); }
+        else if (o.kind == 'r') { void* p = b.p; b.p = nullptr; callBegin(); void* q = cpputest_realloc_location(p, o.sz, FILE_, 11); callEnd(); b.p = q; b.sz = o.sz; b.fam = 2; b.bad = 0; }
         else if (o.kind == 'o') { if (b.p && !b.bad) { b.saved = ((char*) b.p)[b.sz]; ((char*) b.p)[b.sz] = 'x'; b.bad = 1; } }
-        else if (o.kind == 'w') releaseEntry(o.e, neverAllocated + 16);
+        else if (o.kind == 'w') { callBegin(); releaseEntry(o.e, neverAllocated + 16); callEnd(); }
         else if (o.kind == 'x') {
             size_t n = refusedSize(o.e);
             tlsFailRealloc = o.e == 2;
+            callBegin();
             void* q = cpputest_realloc_location(b.p, n, FILE_, 13);
+            callEnd();
             tlsFailRealloc = 0;
             if (q) { b.p = q; b.sz = n; b.fam = 2; b.bad = 0; }      // not expected: the request cannot be met
         }
     }
+}
+// every entry point, alone on the calling thread, nothing left outstanding: new / new nothrow / new debug, the three of new[],
+// each given back through delete / delete[]; malloc, realloc, free
+static void probe()
+{
+    for (int e = 0; e < 6; e++) {
+        callBegin(); void* p = allocEntry(e, 8); callEnd();
+        callBegin(); releaseEntry(famOfAllocEntry(e), p); callEnd();
+    }
+    callBegin(); void* p = allocEntry(6, 8); callEnd();
+    callBegin(); p = cpputest_realloc_location(p, 16, FILE_, 14); callEnd();
+    callBegin(); releaseEntry(2, p); callEnd();
+}
+static void doSwitch(int k)
+{
+    switch (k) {
+    case 0: MemoryLeakWarningPlugin::turnOffNewDeleteOverloads(); break;
+    case 1: MemoryLeakWarningPlugin::turnOnDefaultNotThreadSafeNewDeleteOverloads(); break;
+    case 2: MemoryLeakWarningPlugin::turnOnThreadSafeNewDeleteOverloads(); break;
+    case 3: MemoryLeakWarningPlugin::saveAndDisableNewDeleteOverloads(); break;
+    default: MemoryLeakWarningPlugin::restoreNewDeleteOverloads(); break;
+    }
+}
+static void epochCounters(Thr* t, unsigned e)
+{
+    callEnd();
+    t->calls[e] = tlsCalls; t->locked[e] = tlsLockedOnce;
+    tlsCalls = 0; tlsLockedOnce = 0;
 }
 static void* threadMain(void* a)
 {
     Thr* t = (Thr*) a;
     injState = t->seed | 1; tlsRestMs = 0;
     while (!__atomic_load_n(&startFlag, __ATOMIC_ACQUIRE)) sched_yield();
-    runOps(t);
+    for (unsigned e = 0; e < nEpochs; e++) {
+        // the switches in front of this epoch happen before the first call made in it, the last call of the epoch happens
+        // before the next switches
+        while (__atomic_load_n(&epochGo, __ATOMIC_ACQUIRE) <= e) sched_yield();
+        runOps(t);
+        if (t->pc < t->nops) t->pc++;              // the ":e" the thread stopped at
+        epochCounters(t, e);
+        __atomic_add_fetch(&epochDone, 1, __ATOMIC_RELEASE);
+    }
     return nullptr;
 }
 
@@ -219,6 +286,7 @@ class ScriptTest : public Utest
 public:
     size_t start_;                   // first operation of this test's segment of thread 0's script
     virtual void testBody() { if (!dryRun) { thr0->pc = start_; runOps(thr0); } }
+    virtual void teardown() { callEnd(); }
 };
 class ScriptShell : public UtestShell
 {
@@ -235,7 +303,11 @@ public:
     virtual void flush() {}
     virtual void printFailure(const TestFailure&)
     {
-        if (outAlloc && !dryRun) { void* p = ::operator new[](24); memset(p, 1, 24); ::operator delete[](p); outAllocs++; }   // calls, not a new-expression the compiler may elide
+        callEnd();                       // the call that was reported: the reporter has given its lock back by now
+        if (outAlloc && !dryRun) {       // calls, not a new-expression the compiler may elide
+            callBegin(); void* p = ::operator new[](24); callEnd(); memset(p, 1, 24);
+            callBegin(); ::operator delete[](p); callEnd(); outAllocs++;
+        }
     }
 };
 // reports raised on the thread that runs the tests go to the real reporter (it fails the running test and leaves it);
@@ -267,11 +339,11 @@ static void scenarioChild(Toks& t, int wfd)
     unsigned n = (unsigned) t.u();
     if (n == 0 || n > 64) _exit(3);
     Thr* thr = (Thr*) calloc(n, sizeof(Thr));
-    size_t live = 0, ntests = 1;
+    size_t live = 0;
     for (unsigned i = 0; i < n; i++) {
         thr[i].tid = i; thr[i].nops = (size_t) t.u(); thr[i].ops = (Op*) calloc(thr[i].nops + 1, sizeof(Op));
         thr[i].seed = seed * 0x9e3779b97f4a7c15ULL + i * 0xbf58476d1ce4e5b9ULL + 1;
-        unsigned maxk = 0;
+        unsigned maxk = 0, epochs = 1;
         for (size_t j = 0; j < thr[i].nops; j++) {
             Op& o = thr[i].ops[j];
             std::string k = t.next();
@@ -280,15 +352,24 @@ static void scenarioChild(Toks& t, int wfd)
             else if (k == ":r") { o.kind = 'r'; o.k = (unsigned) t.u(); o.sz = (size_t) t.u(); }
             else if (k == ":o") { o.kind = 'o'; o.k = (unsigned) t.u(); }
             else if (k == ":w") { o.kind = 'w'; o.e = t.n(); }
-            else if (k == ":t") { o.kind = 't'; if (i == 0) ntests++; }
+            else if (k == ":t") { o.kind = 't'; }
             else if (k == ":x") { o.kind = 'x'; o.k = (unsigned) t.u(); o.e = t.n(); }
             else if (k == ":s") { o.kind = 's'; o.sz = (size_t) t.u(); if (o.sz > 5000) o.sz = 5000; thr[i].hasRest = 1; scenarioHasRest = 1; }
+            else if (k == ":e") {
+                o.kind = 'e'; o.nsw = (unsigned) t.u(); o.sw = (unsigned char*) calloc(o.nsw + 1, 1); epochs++;
+                for (unsigned q = 0; q < o.nsw; q++) o.sw[q] = (unsigned char) t.n();
+                if (i != 0 && o.nsw) { fprintf(stderr, "switches on a worker thread\n"); _exit(3); }
+            }
             else { fprintf(stderr, "bad op %s\n", k.c_str()); _exit(3); }
             if (o.k > maxk) maxk = o.k;
         }
+        if (i == 0) nEpochs = epochs;
+        else if (epochs != nEpochs) { fprintf(stderr, "threads disagree on the number of epochs\n"); _exit(3); }
         thr[i].lastOp = thr[i].nops;
         for (size_t j = 0; j < thr[i].nops; j++) if (strchr("afrwx", thr[i].ops[j].kind)) thr[i].lastOp = j;
         thr[i].ntbl = maxk + 1; thr[i].tbl = (Blk*) calloc(thr[i].ntbl, sizeof(Blk));
+        thr[i].calls = (unsigned long*) calloc(nEpochs + 1, sizeof(unsigned long));
+        thr[i].locked = (unsigned long*) calloc(nEpochs + 1, sizeof(unsigned long));
         live += thr[i].ntbl;
     }
     thr0 = &thr[0];
@@ -300,29 +381,61 @@ static void scenarioChild(Toks& t, int wfd)
     RoutingReporter* rr = new RoutingReporter; rr->real_ = d->reporter_; d->reporter_ = rr;
     QuietOutput* out = new QuietOutput;
     TestResult* result = new TestResult(*out);
-    TestRegistry* reg = new TestRegistry;
-    ScriptShell** shells = (ScriptShell**) calloc(ntests, sizeof(ScriptShell*));
+    // thread 0's part of every epoch: [first, last) of its items, one registered test per stretch between ":t"s; an epoch in
+    // which the test thread has nothing to do has one test that is not run
+    struct Ep { size_t first, last; TestRegistry* reg; size_t shell0, nshells; Op* sw; };
+    Ep* eps = (Ep*) calloc(nEpochs, sizeof(Ep));
+    size_t ntests = 0;
     {
-        size_t seg = 0; shells[0] = new ScriptShell(0);
-        for (size_t j = 0; j < thr[0].nops; j++) if (thr[0].ops[j].kind == 't') shells[++seg] = new ScriptShell(j + 1);
+        size_t e = 0; eps[0].first = 0; eps[0].sw = nullptr;
+        for (size_t j = 0; j < thr[0].nops; j++) if (thr[0].ops[j].kind == 'e') { eps[e].last = j; e++; eps[e].first = j + 1; eps[e].sw = &thr[0].ops[j]; }
+        eps[e].last = thr[0].nops;
+        for (e = 0; e < nEpochs; e++) {
+            eps[e].shell0 = ntests; eps[e].nshells = 1;
+            for (size_t j = eps[e].first; j < eps[e].last; j++) if (thr[0].ops[j].kind == 't') eps[e].nshells++;
+            ntests += eps[e].nshells;
+        }
     }
-    for (size_t i = ntests; i-- > 0;) reg->addTest(shells[i]);      // addTest prepends: add the last test first
+    ScriptShell** shells = (ScriptShell**) calloc(ntests, sizeof(ScriptShell*));
+    for (size_t e = 0; e < nEpochs; e++) {
+        size_t q = eps[e].shell0; shells[q] = new ScriptShell(eps[e].first);
+        for (size_t j = eps[e].first; j < eps[e].last; j++) if (thr[0].ops[j].kind == 't') shells[++q] = new ScriptShell(j + 1);
+        eps[e].reg = nullptr;
+        if (eps[e].last > eps[e].first) {
+            eps[e].reg = new TestRegistry;
+            for (size_t i = eps[e].nshells; i-- > 0;) eps[e].reg->addTest(shells[eps[e].shell0 + i]);      // addTest prepends: add the last test first
+        }
+    }
 
     MemoryLeakWarningPlugin::turnOnThreadSafeNewDeleteOverloads();
-    // what the framework itself allocates for a run of ntests empty tests (subtracted below)
+    // what the framework itself allocates for a run of that many empty tests (subtracted below)
     unsigned s0 = d->getCurrentAllocationNumber(); size_t l0 = d->totalMemoryLeaks(mem_leak_period_all);
-    dryRun = true; reg->runAllTests(*result); dryRun = false;
+    dryRun = true; for (size_t e = 0; e < nEpochs; e++) if (eps[e].reg) eps[e].reg->runAllTests(*result); dryRun = false;
     unsigned dryAdv = d->getCurrentAllocationNumber() - s0; size_t dryLeaks = d->totalMemoryLeaks(mem_leak_period_all) - l0;
 
     size_t n0 = d->totalMemoryLeaks(mem_leak_period_all);
     unsigned seq0 = d->getCurrentAllocationNumber();
+    unsigned probeAdv = 0;
     inTest = 1;
     __atomic_store_n(&insideNow, 0, __ATOMIC_RELAXED); __atomic_store_n(&insidePeak, 0, __ATOMIC_RELAXED);
+    tlsCalls = 0; tlsLockedOnce = 0; tlsOpen = 0;
     for (unsigned i = 1; i < n; i++) pthread_create(&thr[i].th, nullptr, threadMain, &thr[i]);
     __atomic_store_n(&startFlag, 1, __ATOMIC_RELEASE);
-    reg->runAllTests(*result);          // thread 0: one registered test per segment of its script
+    for (unsigned e = 0; e < nEpochs; e++) {
+        // every thread is between epochs: the test thread, alone, flips the switches and probes every entry point
+        if (eps[e].sw) for (unsigned q = 0; q < eps[e].sw->nsw; q++) doSwitch(eps[e].sw->sw[q]);
+        unsigned a0 = d->getCurrentAllocationNumber();
+        probe();
+        probeAdv += d->getCurrentAllocationNumber() - a0;
+        __atomic_store_n(&epochGo, e + 1, __ATOMIC_RELEASE);
+        if (eps[e].reg) eps[e].reg->runAllTests(*result);          // thread 0: one registered test per stretch of its script
+        epochCounters(&thr[0], e);
+        while (__atomic_load_n(&epochDone, __ATOMIC_ACQUIRE) < (n - 1) * (e + 1)) sched_yield();
+    }
     for (unsigned i = 1; i < n; i++) pthread_join(thr[i].th, nullptr);
     inTest = 0;
+    // whatever the switches were left at: the accounting below and the cleanup go through the detector
+    MemoryLeakWarningPlugin::turnOnThreadSafeNewDeleteOverloads();
     size_t n1 = d->totalMemoryLeaks(mem_leak_period_all);
     unsigned seq1 = d->getCurrentAllocationNumber();
     int peak = __atomic_load_n(&insidePeak, __ATOMIC_RELAXED);
@@ -357,13 +470,19 @@ static void scenarioChild(Toks& t, int wfd)
     std::string o = ":ok " + hx(ntests);
     for (size_t i = 0; i < ntests; i++) o += shells[i]->hasFailed() ? " 1" : " 0";
     o += " " + hx(strayFails);
-    o += " " + hx((unsigned long long) (seq1 - seq0) - dryAdv - outAllocs);
+    o += " " + hx((unsigned long long) (seq1 - seq0) - dryAdv - outAllocs - probeAdv);
     o += " " + hx((unsigned long long) distinct);
     o += " " + hx((unsigned long long) (foreign - n0 - dryLeaks));
     o += " " + hx((unsigned long long) (n2 - n0 - dryLeaks));
     o += " " + hx((unsigned long long) (peak > 1 ? peak - 1 : 0));
     o += " " + hx(nents);
     for (size_t i = 0; i < nents; i++) o += " " + hx(ents[i].tid) + " " + hx(ents[i].k) + " " + hx(ents[i].sz);
+    o += " " + hx(nEpochs);
+    for (unsigned e = 0; e < nEpochs; e++) {
+        unsigned long c = 0, l = 0;
+        for (unsigned i = 0; i < n; i++) { c += thr[i].calls[e]; l += thr[i].locked[e]; }
+        o += " " + hx(c) + " " + hx(l);
+    }
     o += "\n";
     size_t off = 0;
     while (off < o.size()) { ssize_t w = write(wfd, o.data() + off, o.size() - off); if (w <= 0) _exit(4); off += (size_t) w; }
